@@ -79,6 +79,7 @@ pub mod own {
                         let (a, b) = (node_of(slots, &st[1]), node_of(slots, &st[2]));
                         let c1 = a.is_connected(b.key());
                         let c2 = b.is_connected(a.key());
+                        own_lookups!(a, b);
                         format!("q {} {}", c1 as u8, c2 as u8)
                     }
                     "otry" => {
